@@ -436,13 +436,15 @@ fn rewrite_search(search: Search) -> Search {
             if let Some(head) = pattern.strip_suffix(".*") {
                 pattern = head.to_owned();
             }
-            Search::Regex(
-                RegexBuilder::new(&pattern)
-                    .case_insensitive(insensitive)
-                    .build()
-                    .expect("could not build regex"),
-                insensitive,
-            )
+            // NOTE: Stripping can leave an invalid pattern behind (`a\.*`, `.*?a`), in which case we
+            // keep the original.
+            match RegexBuilder::new(&pattern)
+                .case_insensitive(insensitive)
+                .build()
+            {
+                Ok(rewritten) => Search::Regex(rewritten, insensitive),
+                Err(_) => Search::Regex(regex, insensitive),
+            }
         }
         Search::RegexSet(regex, insensitive) => {
             let mut patterns = vec![];
@@ -456,13 +458,13 @@ fn rewrite_search(search: Search) -> Search {
                 }
                 patterns.push(pattern);
             }
-            Search::RegexSet(
-                RegexSetBuilder::new(patterns)
-                    .case_insensitive(insensitive)
-                    .build()
-                    .expect("could not build regex"),
-                insensitive,
-            )
+            match RegexSetBuilder::new(patterns)
+                .case_insensitive(insensitive)
+                .build()
+            {
+                Ok(rewritten) => Search::RegexSet(rewritten, insensitive),
+                Err(_) => Search::RegexSet(regex, insensitive),
+            }
         }
         _ => search,
     }
